@@ -4,6 +4,7 @@ import Marwood.Lemmas.StackWFToy
 import Marwood.Lemmas.ContResumeToy
 import Marwood.Lemmas.ContResumeCompile
 import Marwood.Lemmas.ContResumeCap
+import Marwood.Lemmas.StackWFBpLive
 /-!
 # C05 — first-class continuations: capture, invocation, re-entry
 
@@ -722,5 +723,64 @@ Still missing:
 * (M1), (M5): a CPS definitional semantics with `call/cc` and its simulation by the compiled code
   (`KRep`, `compile_simulates`). Not done; the language-level reading of the theorems above is still
   "the machine continues from `Resume`", not a statement over source terms. -/
+
+/-! ## `BpLive` is a theorem; the theorems on the concrete machine
+
+Since the bytecode verifier checks `BasePointerOffset` *source* operands (`Verify.bpSrcOk`: procedure code,
+`off ≤ 0`), `BpLive` follows from WF-stack (`Lemmas/StackWFBpLive.lean: bpLive_of_wfs`): the side
+conditions of `SideOK` shrink to `FitOK` (an invoked continuation's stack copy fits the capacity). -/
+
+/-- `step` is a function of (live stack, registers, heap): no `BpLive` hypothesis -/
+theorem step_live_congruence_verified {ops : HeapOps H} {cl : CodeLaws ops} (ll : LiveLaws cl)
+    {s1 s2 r1 : St H} {K : List FDesc} {bl : Bool}
+    (hw : WFS cl s1 K) (heq : LiveEq s1 s2) (hcap2 : s2.stack.sp < s2.stack.cells.length)
+    (hfit : ∀ c, ops.callee s1.heap s1.acc = .continuation c → c.stack.cells.length ≤ s2.stack.cells.length)
+    (hs : step ops s1 = .ok (r1, bl)) :
+    ∃ r2, step ops s2 = .ok (r2, bl) ∧ LiveEq r1 r2 ∧ r2.stack.sp < r2.stack.cells.length :=
+  step_live_congruence_wf ll hw heq hcap2 hfit hs
+
+/-- `invoke_run_same_result` with `SideOK` reduced to the capacity condition `FitOK` -/
+theorem invoke_run_same_result_verified {ops : HeapOps H} {cl : CodeLaws ops} (ll : LiveLaws cl)
+    {s0 t t1 : St H} {Kt : List FDesc} {op : Op} {n : Nat}
+    (h0sp : 2 ≤ s0.stack.sp) (h0cap : s0.stack.sp < s0.stack.cells.length)
+    (hwt : WFS cl t Kt)
+    (hr : readOpcode ops t = .ok (op, t1)) (hop : op = .callAcc ∨ op = .tcallAcc)
+    (hk : ops.callee t.heap t.acc = .continuation (capturedCont s0))
+    (hsp : 2 ≤ t.stack.sp) (htop : t.stack.cellAt t.stack.sp = .argc n) (hn : 1 ≤ n)
+    (hfit : s0.stack.sp - 2 + 1 ≤ t.stack.cells.length) :
+    ∃ r, step ops t = .ok (r, false) ∧
+      ∀ (m : Nat) (r' : St H),
+        FitOK ops m r (Resume s0 (t.stack.cellAt (t.stack.sp - 1)) t.heap) →
+        runN ops m r = .ok (r', true) →
+        ∃ r'', runN ops m (Resume s0 (t.stack.cellAt (t.stack.sp - 1)) t.heap) = .ok (r'', true) ∧
+          r''.acc = r'.acc ∧ r''.heap = r'.heap := by
+  obtain ⟨r, hstep, hall⟩ := invoke_run_same_result ll h0sp h0cap hwt hr hop hk hsp htop hn hfit
+  obtain ⟨Kr, hwr, _⟩ := step_preserves hwt hstep
+  exact ⟨r, hstep, fun m r' hf hrun => hall m r' (sideOK_of_fitOK m hwr hf) hrun⟩
+
+section Concrete
+open Marwood.Vm.Concrete
+
+/-- **The property's first sentence on the concrete machine** (`gops ext`: `concreteOps ext` with the
+    callee guard, see `Proofs/C04.lean` "On the concrete machine"): `CodeLaws`, `LiveLaws` and `BpLive`
+    are theorems there. Hypotheses: `ExtCodeLaws ext`, WF-stack of `t` (`CInv t.heap` included), the shape
+    of the invocation, and the capacity conditions (`hfit`, `FitOK`). -/
+theorem invoke_run_same_result_concrete (ext : ExtOps) (ecl : ExtCodeLaws ext)
+    {s0 t t1 : St CHeap} {Kt : List FDesc} {op : Op} {n : Nat}
+    (h0sp : 2 ≤ s0.stack.sp) (h0cap : s0.stack.sp < s0.stack.cells.length)
+    (hwt : WFS (concreteLaws ext ecl) t Kt)
+    (hr : readOpcode (gops ext) t = .ok (op, t1)) (hop : op = .callAcc ∨ op = .tcallAcc)
+    (hk : (gops ext).callee t.heap t.acc = .continuation (capturedCont s0))
+    (hsp : 2 ≤ t.stack.sp) (htop : t.stack.cellAt t.stack.sp = .argc n) (hn : 1 ≤ n)
+    (hfit : s0.stack.sp - 2 + 1 ≤ t.stack.cells.length) :
+    ∃ r, step (gops ext) t = .ok (r, false) ∧
+      ∀ (m : Nat) (r' : St CHeap),
+        FitOK (gops ext) m r (Resume s0 (t.stack.cellAt (t.stack.sp - 1)) t.heap) →
+        runN (gops ext) m r = .ok (r', true) →
+        ∃ r'', runN (gops ext) m (Resume s0 (t.stack.cellAt (t.stack.sp - 1)) t.heap) = .ok (r'', true) ∧
+          r''.acc = r'.acc ∧ r''.heap = r'.heap :=
+  invoke_run_same_result_verified (concreteLiveLaws ext ecl) h0sp h0cap hwt hr hop hk hsp htop hn hfit
+
+end Concrete
 
 end Marwood.Proofs.C05
